@@ -25,3 +25,83 @@ func init() {
 			ExpectReach: []string{"end-known"}, Desc: "a handle read stamps LastAccess, returns its own installed bytes, sends no request"})
 	propRegistry = append(propRegistry, c19)
 }
+
+var clientFSStubs = map[string]string{
+	"os.ReadFile":      "verifStubReadFile",
+	"os.WriteFile":     "verifStubOSWriteFile",
+	"os.OpenFile":      "verifStubOpenFile",
+	"os.Stat":          "verifStubStat",
+	"os.CreateTemp":    "verifStubCreateTemp",
+	"os.Remove":        "verifStubRemove",
+	"os.Rename":        "verifStubRename",
+	"(*os.File).Name":  "verifStubFileName",
+	"(*os.File).Write": "verifStubFileWrite",
+	"(*os.File).Chmod": "verifStubFileChmod",
+	"(*os.File).Sync":  "verifStubFileSync",
+	"(*os.File).Close": "verifStubFileClose",
+}
+
+func clientAll() map[string]string {
+	m := map[string]string{}
+	for k, v := range clientStubs {
+		m[k] = v
+	}
+	for k, v := range clientFSStubs {
+		m[k] = v
+	}
+	return m
+}
+
+func ch(name string, params, thorough map[string]int, reach []string, desc string) *HarnessSpec {
+	return &HarnessSpec{Name: name, Pkg: "client/setec", Stubs: clientAll(), Params: params, ThoroughParams: thorough, ExpectReach: reach, Desc: desc}
+}
+
+func init() {
+	fsNote := "file-system faults and kills are a model; realising them natively needs ptrace fault injection"
+	c10 := &Property{ID: "C10", Pkgs: []string{"client/setec"}, Bounds: map[string]string{"declared names": "2 / 3 (duplicates, empty allowed)", "service failures": "at most 2 / 4 failing requests per construction", "cache": "none, unreadable, empty, any document over the names (valid or not), arbitrary bytes"}}
+	c10.Harnesses = append(c10.Harnesses,
+		ch("verifHarnessC10NewStore", map[string]int{"names": 2, "fails": 2}, map[string]int{"names": 3, "fails": 3}, []string{"end-error", "end-ok", "end-from-cache"}, "NewStore end to end: names, cache kinds, failing/recovering service, ending context"),
+		ch("verifHarnessC10Misconfig", map[string]int{}, nil, []string{"end"}, "misconfiguration is an error without any request"),
+		ch("verifHarnessC10FileClient", map[string]int{}, nil, []string{"end-present", "end-absent"}, "file-backed client: a missing declared secret fails at once, no waiting"))
+	propRegistry = append(propRegistry, c10)
+
+	c13 := &Property{ID: "C13", Pkgs: []string{"client/setec"}, Bounds: map[string]string{"names": "2 / 3", "fault positions": "every FS call of the cache write: error and kill-before"}}
+	h1 := ch("verifHarnessC13FileCacheWrite", map[string]int{}, nil, []string{"end-crash", "end-error", "end-ok"}, "FileCache.Write: real atomicfile over the FS model, owner-only, old or new document under faults and kills")
+	h1.NoNative = fsNote
+	h2 := ch("verifHarnessC13FileClientReadsCache", map[string]int{"names": 2}, map[string]int{"names": 3}, []string{"end-present", "end-absent"}, "a cache document is accepted by NewFileClient with identical results for every non-empty secret")
+	h2.NoNative = fsNote
+	c13.Harnesses = append(c13.Harnesses, h1, h2,
+		ch("verifHarnessC13ShutdownFlush", map[string]int{"names": 2}, map[string]int{"names": 3}, []string{"end"}, "the poller flushes the whole active set on shutdown"),
+		ch("verifHarnessC10NewStore", map[string]int{"names": 2, "fails": 2}, map[string]int{"names": 3, "fails": 3}, []string{"end-ok", "end-from-cache"}, "flush after initial fetch; restart from any cache document; arbitrary cache bytes never fatal"),
+		ch("verifHarnessC11Refresh", map[string]int{"names": 2}, map[string]int{"names": 3}, []string{"end-ok"}, "flush after a poll that changed something holds the post-state"),
+		ch("verifHarnessC16Lookup", map[string]int{"names": 2}, map[string]int{"names": 3}, []string{"end-installed"}, "flush after a lookup install"))
+	propRegistry = append(propRegistry, c13)
+
+	c12 := &Property{ID: "C12", Pkgs: []string{"client/setec"}, Bounds: map[string]string{"names": "2 / 3"}}
+	c12.Harnesses = append(c12.Harnesses,
+		ch("verifHarnessC12ApplyUpdates", map[string]int{"names": 2}, map[string]int{"names": 3}, []string{"end"}, "applyUpdates with an arbitrary update set: invariant J, lock set, handles keep their names, values replaced never mutated"),
+		ch("verifHarnessC19HandleStamps", map[string]int{"names": 2}, map[string]int{"names": 3}, []string{"end-known"}, "a handle call returns its own installed bytes, sends no request, releases the lock"),
+		ch("verifHarnessC16Lookup", map[string]int{"names": 2}, map[string]int{"names": 3}, []string{"end-installed", "end-failed", "end-known", "end-disabled"}, "lookup under lock-set obligations: no request under the lock"),
+		ch("verifHarnessC11Refresh", map[string]int{"names": 2}, map[string]int{"names": 3}, []string{"end-ok"}, "poll keeps invariant J"))
+	propRegistry = append(propRegistry, c12)
+
+	c15 := &Property{ID: "C15", Pkgs: []string{"client/setec"}, Bounds: map[string]string{"events": "histories of 4 / 6 events (install | Get) after creation, builder may fail at every call"}}
+	c15.Harnesses = append(c15.Harnesses,
+		ch("verifHarnessC15Updater", map[string]int{"steps": 4}, map[string]int{"steps": 6}, []string{"end", "end-create-failed"}, "NewUpdater + bounded histories of installs and Gets with failing builders and closers"),
+		ch("verifHarnessC15Notify", map[string]int{}, nil, []string{"end"}, "notify is non-blocking and a level trigger"))
+	propRegistry = append(propRegistry, c15)
+
+	c16 := &Property{ID: "C16", Pkgs: []string{"client/setec"}, Bounds: map[string]string{"names": "2 / 3", "time": "ghost clock in ns, any start < 2^50, any deadline", "callers": "this caller plus at most one earlier leader whose own context may be cancelled"}}
+	hb := ch("verifHarnessC16Bounded", map[string]int{}, nil, []string{"end"}, "hanging service: leader bounded by the 5-minute fallback, caller deadline honoured, follower of a cancelled leader retries once and is bounded")
+	hb.NoNative = "virtual time (a hanging service and 5-minute timers) has no native counterpart without synctest"
+	hb.UnwindFn = map[string]int{"(*github.com/tailscale/setec/client/setec.Store).lookupSecretInternal": 4}
+	c16.Harnesses = append(c16.Harnesses,
+		ch("verifHarnessC16Lookup", map[string]int{"names": 2}, map[string]int{"names": 3}, []string{"end-installed", "end-failed", "end-known", "end-disabled"}, "LookupSecret: gate, single flight per name, install exactly the served value, no retry"),
+		ch("verifHarnessC16SecretGate", map[string]int{"names": 2}, map[string]int{"names": 3}, []string{"end"}, "Secret panics iff unknown and lookups disabled; never a request"),
+		hb)
+	propRegistry = append(propRegistry, c16)
+
+	c20 := &Property{ID: "C20", Pkgs: []string{"client/setec"}, Bounds: map[string]string{"fields": "one each of []byte, string, Secret, custom unmarshaler; values arbitrary; each lookup may fail"}}
+	c20.Harnesses = append(c20.Harnesses, ch("verifHarnessC20Apply", map[string]int{}, nil, []string{"end"}, "Fields.Apply/Secrets on a hand-built field list: per-type assignment, private copy, naming, error isolation"))
+	propRegistry = append(propRegistry, c20)
+}
